@@ -1046,7 +1046,7 @@ func TestC02(t *testing.T) {
 	rep.Coverage["cases_whose_raw_name_resolves_outside"] = total.RefOutside
 	rep.Coverage["attempts_outside_that_failed"] = total.AttemptsOutside
 	rep.Coverage["successful_calls_outside_without_visible_change"] = total.SilentOutside
-	rep.Coverage["cpu_s"] = total.CPUSeconds
+	rep.Coverage["shard_wall_s_sum"] = total.CPUSeconds
 	rep.Coverage["samples"] = total.Samples
 	rep.Assume = []string{
 		"Linux path rules: '/' is the only separator, '\\' and 'C:' are ordinary name bytes",
